@@ -23,6 +23,11 @@ thread_local! {
 }
 
 pub fn encode(v: Value, path: &mut Vec<usize>) -> J {
+    encode_h(v, path, None)
+}
+
+/// `heap` is needed to iterate values that only offer the generic iteration protocol (sets).
+pub fn encode_h<'v>(v: Value<'v>, path: &mut Vec<usize>, heap: Option<starlark::values::Heap<'v>>) -> J {
     if v.is_none() {
         return json!({"t": "none"});
     }
@@ -40,7 +45,7 @@ pub fn encode(v: Value, path: &mut Vec<usize>) -> J {
         return json!({"t": "int", "v": 0, "big": v.to_repr()});
     }
     if let Some(t) = TupleRef::from_value(v) {
-        return json!({"t": "tuple", "v": t.content().iter().map(|x| encode(*x, path)).collect::<Vec<_>>()});
+        return json!({"t": "tuple", "v": t.content().iter().map(|x| encode_h(*x, path, heap)).collect::<Vec<_>>()});
     }
     let id = v.ptr_value_for_verif();
     if let Some(l) = ListRef::from_value(v) {
@@ -48,7 +53,7 @@ pub fn encode(v: Value, path: &mut Vec<usize>) -> J {
             return json!({"t": "cycle"});
         }
         path.push(id);
-        let r = json!({"t": "list", "v": l.content().iter().map(|x| encode(*x, path)).collect::<Vec<_>>()});
+        let r = json!({"t": "list", "v": l.content().iter().map(|x| encode_h(*x, path, heap)).collect::<Vec<_>>()});
         path.pop();
         return r;
     }
@@ -57,10 +62,23 @@ pub fn encode(v: Value, path: &mut Vec<usize>) -> J {
             return json!({"t": "cycle"});
         }
         path.push(id);
-        let ks: Vec<J> = d.iter().map(|(k, _)| encode(k, path)).collect();
-        let vs: Vec<J> = d.iter().map(|(_, x)| encode(x, path)).collect();
+        let ks: Vec<J> = d.iter().map(|(k, _)| encode_h(k, path, heap)).collect();
+        let vs: Vec<J> = d.iter().map(|(_, x)| encode_h(x, path, heap)).collect();
         path.pop();
         return json!({"t": "dict", "k": ks, "v": vs});
+    }
+    if ty == "set" {
+        if let Some(h) = heap {
+            if path.contains(&id) {
+                return json!({"t": "cycle"});
+            }
+            if let Ok(it) = v.iterate(h) {
+                path.push(id);
+                let items: Vec<J> = it.map(|x| encode_h(x, path, heap)).collect();
+                path.pop();
+                return json!({"t": "set", "v": items});
+            }
+        }
     }
     if ty == "range" {
         // repr: range(a, b) or range(a, b, c) or range(b)
@@ -109,8 +127,8 @@ impl<'v> PtrForVerif for Value<'v> {
 
 #[starlark_module]
 fn emit_module(builder: &mut GlobalsBuilder) {
-    fn emit<'v>(x: Value<'v>) -> anyhow::Result<NoneType> {
-        let e = encode(x, &mut Vec::new());
+    fn emit<'v>(x: Value<'v>, heap: starlark::values::Heap<'v>) -> anyhow::Result<NoneType> {
+        let e = encode_h(x, &mut Vec::new(), Some(heap));
         OUT.with(|o| o.borrow_mut().push(e));
         Ok(NoneType)
     }
